@@ -6,6 +6,7 @@ CONSTANTS
   MaxPend = 20000
   Horizon = 1000000
   HeadCheck = TRUE
+  MaxHold = 3
 INIT TraceInit
 NEXT TraceNext
 POSTCONDITION TraceAccepted
